@@ -101,6 +101,7 @@ func histOps() []histOp {
 	listData := func() map[string]any {
 		return map[string]any{"items": []int{3, 1, 2}, "o": map[string]any{"b": 1, "a": []int{1}}}
 	}
+	noData := func() map[string]any { return nil }
 	return []histOp{
 		{"String(home, struct)", str("home", structData)},
 		{"String(profile, struct)", str("profile", structData)},
@@ -109,11 +110,11 @@ func histOps() []histOp {
 		{"String(bad)", str("bad", structData)},
 		{"String(bad2, struct)", str("bad2", structData)},
 		{"String(missing)", str("no/such/page", structData)},
-		{"String(layout name)", str("layouts/main", nil)},
+		{"String(layout name)", str("layouts/main", noData)},
 		{"String(list)", str("list", listData)},
 		{"Response(home)", resp("home", mapData)},
 		{"Response(bad)", resp("bad", structData)},
-		{"Response(missing)", resp("ghost", nil)},
+		{"Response(missing)", resp("ghost", noData)},
 		{"EvaluateString(ok)", func(h *histEnv) string {
 			out, err := textwire.EvaluateString("{{ a + 1 }} @each(v in [1, 2]){{ v }}@end", map[string]any{"a": 1})
 			return fmt.Sprintf("out=%q err=%v", out, err)
@@ -201,7 +202,12 @@ func init() {
 				desc["history"] = names
 				c.Input(desc)
 				// baselines: every operation of the history, alone, first after a fresh load
-				base := map[int]string{}
+				bkey := fmt.Sprintf("baselines-%d", cfgNo)
+				base, _ := c.State[bkey].(map[int]string)
+				if base == nil {
+					base = map[int]string{}
+					c.State[bkey] = base
+				}
 				for _, o := range seq {
 					if _, ok := base[o]; ok {
 						continue
